@@ -87,7 +87,7 @@ COPIES_OF_BG = ("is_fresh(result) and len(result) == len(%(i)s) + len(%(o)s) and
                 "forall(lambda k: implies(0 <= k < len(%(o)s), is_fresh(result[len(%(i)s) + k]) and "
                 "copy_of(result[len(%(i)s) + k]) is %(o)s[k] and result[len(%(i)s) + k].status == Status.untested))"
                 % {"i": INH, "o": OWNB})
-contract(M + "Scenario.background_steps", props=P, params={"self": "ref:Scenario"}, self_classes=["Scenario"],
+contract(M + "Scenario.background_steps", props=P + ["C03", "C01"], params={"self": "ref:Scenario"}, self_classes=["Scenario"],
          result="seq:ref:Step", modifies=STEP_RESET_FIELDS + ["self._background_steps", "*._inherited_steps"],
          ensures={
              "computed-once-then-cached": "implies(not is_none(old(self._background_steps)), result is old(self._background_steps)) and "
@@ -145,7 +145,7 @@ contract(M + "Background.all_steps", props=P, params={"self": "ref:Background"},
 
 # -- skipping a scenario: every step that was not executed (background steps included) is left skipped ----------------
 ALLS = "as_list(all_steps_of(self), 'ref:Step')"
-contract(M + "Scenario.skip", props=P + ["C09"], params={"self": "ref:Scenario", "reason": "opt:str", "require_not_executed": "bool"},
+contract(M + "Scenario.skip", props=P + ["C09", "C01", "C10", "C03"], params={"self": "ref:Scenario", "reason": "opt:str", "require_not_executed": "bool"},
          self_classes=["Scenario"], assert_raises=True, allow_raises=["AssertionError"],
          callsites={"self.all_steps": "abs:Scenario.all_steps"},
          modifies=["self._cached_status", "self.should_skip", "self.skip_reason", "*.status",
